@@ -36,6 +36,10 @@ PANICKY = [
     r"::RefCell::(borrow|borrow_mut)$", r"::(Duration|Instant|SystemTime)::",
     r"^rand::Rng::(random_range|gen_range|random_ratio|random_bool)$", r"^rand::.*::(random_range|gen_range)$",
     r"::Layout::", r"std::thread::",
+    # allocation sized by an argument: `capacity overflow` panics (and multi-exabyte requests abort) when the size is
+    # not bounded - harmless for program-chosen sizes, reachable for sizes read from an input
+    r"::(Vec|String|VecDeque)::(with_capacity|reserve|reserve_exact|resize|resize_with)$", r"^alloc::vec::from_elem$", r"^std::vec::from_elem$",
+    r"<impl (str|\[T\])>::repeat$",
     # arithmetic operator traits on primitives inherit the caller's overflow checks
     r"^<&?(u8|u16|u32|u64|u128|usize|i8|i16|i32|i64|i128|isize) as std::ops::(Add|Sub|Mul|Div|Rem|Neg|Shl|Shr|AddAssign|SubAssign|MulAssign|DivAssign|RemAssign|ShlAssign|ShrAssign)(<.*>)?>::\w+$",
     r"::OnceLock::(set|get_or_init)$" if False else r"^$never$",
@@ -46,15 +50,15 @@ PANICKY = [
 SAFE_NAMES = {
     "next", "next_back", "deref", "deref_mut", "clone", "eq", "ne", "lt", "le", "gt", "ge", "cmp", "partial_cmp",
     "map", "take", "replace", "as_mut", "as_ref", "get", "get_mut", "insert", "remove", "new", "push", "push_str",
-    "resize", "extend_from_slice", "swap", "finish", "enumerate", "filter_map", "repeat", "call_once", "call_mut",
+    "extend_from_slice", "swap", "finish", "enumerate", "filter_map", "repeat", "call_once", "call_mut",
     "call", "into_inner", "load", "store", "sort", "sort_by_key", "sort_by", "sort_unstable", "last", "first",
-    "position", "key", "get_or_init", "add", "sub", "extend", "with_capacity", "reserve", "from", "into", "fill",
+    "position", "key", "get_or_init", "add", "sub", "extend", "from", "into", "fill",
     "len", "is_empty", "iter", "iter_mut", "entry", "or_default", "collect", "default", "fmt", "to_string",
     "try_from", "try_into", "min", "max", "contains", "lines", "bytes", "chars", "append", "clear", "pop",
     "write_str", "write_fmt", "write_char", "from_iter", "chain", "zip", "rev", "skip", "filter", "find", "any",
     "all", "fold", "count", "flatten", "flat_map", "unzip", "take_while", "skip_while", "peekable", "last_mut",
     "first_mut", "split_first", "split_last", "into_iter", "try_write", "try_lock", "try_read", "lock", "read", "write",
-    "from_fn", "from_elem", "max_by_key", "min_by_key", "then", "then_some", "copied", "cloned", "for_each",
+    "from_fn", "max_by_key", "min_by_key", "then", "then_some", "copied", "cloned", "for_each",
 }
 
 _scan = None
@@ -780,6 +784,17 @@ def _auto_call(site):
         n = interval(ops[1], env)
         if n and n[0] >= 1:
             return ("D-TYPE", "%s size >= %d" % (name, n[0]))
+        return None
+    if name in ("with_capacity", "reserve", "reserve_exact", "resize", "resize_with", "from_elem", "repeat"):
+        # the size operand: with_capacity(n) | x.reserve(n) | x.resize(n, v) | from_elem(v, n) | s.repeat(n)
+        idx = {"with_capacity": 0, "from_elem": 1}.get(name, 1)
+        if idx < len(ops):
+            n = interval(ops[idx], env)
+            if n and n[1] is not None and n[1] <= 2 ** 40:
+                return ("D-TYPE", "allocation size is at most %d elements" % n[1])
+            u = upper_len(ops[idx])
+            if u is not None and u[1] <= 0:
+                return ("D-TYPE", "allocation size is bounded by the length of an existing collection")
         return None
     if name == "from_str_radix" and len(ops) == 2:
         n = interval(ops[1], env)
